@@ -4,6 +4,7 @@ import FuModel.Spec.RunRef
 import FuModel.Find.StartPoints
 import FuModel.Xargs.Read
 import FuModel.Pred.C08
+import FuModel.Pred.C10
 
 /-!
 Driver verb `find`: a whole run of find on an observed world.
@@ -78,6 +79,7 @@ def parseArg (s : String) : Option Arg :=
   | ["print0"] => some (.tok (.prim (.pathOut [] [0])))
   | ["prune"] => some (.tok (.prim .prune)) | ["quit"] => some (.tok (.prim .quit))
   | ["depth"] => some .depth | ["d"] => some .depth
+  | ["delete"] => some .delete
   | ["sorted"] => some .sorted | ["follow"] => some .follow
   | ["name", h] => (bytesOfHex h).map fun b => .tok (.prim (.name b))
   | ["type", c] => (match c.toList with | [c] => some (.tok (.prim (.typeIs c))) | _ => none)
@@ -290,6 +292,32 @@ def predXC (req obs : List String) : Option Bool :=
       let delivered := (argcs.map fun n => n - 1 - fixed.length).foldl (· + ·) 0
       pure (delivered == reached.length && ((st == 0) == (ref.ret == 0 && script.all (· == 0))))
     | _, _ => pure false
+  | _, _ => none
+
+/-- `findd <flag> <roots> <args>`: a run with -delete; the removed paths (scene-relative, sorted) -/
+def handleD (verb : String) (args : List String) : Option String :=
+  match verb, args with
+  | "findd", [f, roots, as] => do
+    let r ← parseReq [f, roots, as]
+    match run r.follow r.roots r.args with
+    | some res =>
+      let gone := FuModel.Find.RunRef.sortB (res.gs.deleted.map normDir)
+      pure s!"st={res.ret} out={hexOfBytes res.gs.out} deleted={joinList (gone.map hexOfBytes)} changed=0"
+    | none => pure "st=1 out=- deleted=. changed=0"
+  | _, _ => none
+
+def predC10 (req obs : List String) : Option Bool :=
+  match req, obs with
+  | ["findd", f, roots, as], [st, out, del, ch] => do
+    let r ← parseReq [f, roots, as]
+    let st ← (st.dropPrefix? "st=").bind (·.toString.toNat?)
+    let out ← (out.dropPrefix? "out=").bind (bytesOfHex ·.toString)
+    let del ← (del.dropPrefix? "deleted=").bind (bytesListOfHex ·.toString)
+    let ch ← (ch.dropPrefix? "changed=").bind (·.toString.toNat?)
+    match FuModel.Find.RunRef.refRunX r.follow r.roots r.args [] with
+    | some (ref, reached) =>
+      pure (FuModel.Pred.C10.pred normDir reached ref.ret st del ch && out == ref.out)
+    | none => pure (st != 0 && del.isEmpty && ch == 0)
   | _, _ => none
 
 /-- `pipe0`: find's output through `xargs -0`: the arguments delivered, in order -/
